@@ -88,9 +88,23 @@ class Task:
         s.kw = kw
 
 
+class _TaskTimeout(Exception):
+    pass
+
+
 def _run_task(arg):
     ll, task_name, fn, kw = arg
     t0 = time.time()
+    import signal
+
+    def _alarm(sig, frm):
+        raise _TaskTimeout()
+    limit = int(os.environ.get('SEIR_TASK_TIMEOUT', '1500'))
+    try:
+        signal.signal(signal.SIGALRM, _alarm)
+        signal.alarm(limit)
+    except ValueError:
+        pass
     res = dict(name=task_name, status='ok', paths=0, queries=0, solver_s=0.0, steps=0, covers={}, violations=[],
                samples=[], funcs=[], notes=[])
     try:
@@ -99,12 +113,19 @@ def _run_task(arg):
         mod = importlib.import_module(modname)
         env = Env(ll, res)
         getattr(mod, fname)(env, **kw)
+    except _TaskTimeout:
+        res['status'] = 'inconclusive'
+        res['error'] = "obligation did not finish within %d s" % limit
     except Exception as e:          # noqa
         from .vm import Inconclusive
         res['status'] = 'inconclusive'
         res['error'] = "%s: %s" % (type(e).__name__, e)
         if not isinstance(e, Inconclusive):
             res['error'] += "\n" + traceback.format_exc()[-1500:]
+    try:
+        signal.alarm(0)
+    except Exception:
+        pass
     res['wall_s'] = time.time() - t0
     return res
 
